@@ -10,6 +10,8 @@ import itertools
 import math
 from fractions import Fraction
 
+import numpy as np
+
 REL = 1e-9
 ABS = 1e-12
 
@@ -18,8 +20,14 @@ ABS = 1e-12
 def voxsets(arr) -> dict:
     """label -> frozenset of coordinates, for every non-zero label."""
     shape = arr.shape
-    vals = arr.ravel(order="C").tolist() if arr.ndim else [arr.item()]
     out: dict = {}
+    if arr.ndim and arr.size > 4096:
+        # large arrays: visit the non-zero voxels only (same result)
+        nz = np.nonzero(arr)
+        for idx, v in zip(zip(*[a.tolist() for a in nz]), arr[nz].tolist()):
+            out.setdefault(int(v), set()).add(idx)
+        return {k: frozenset(v) for k, v in out.items()}
+    vals = arr.ravel(order="C").tolist() if arr.ndim else [arr.item()]
     for idx, v in zip(itertools.product(*[range(s) for s in shape]), vals):
         if v != 0:
             out.setdefault(int(v), set()).add(idx)
